@@ -2763,6 +2763,20 @@ private:
         s << "==> " << term_names[info.t];
     }
 
+    constexpr size16_t get_reduction_rule_idx(size16_t state_idx, size16_t term_idx) const
+    {
+        for (size32_t i = 0u; i < situation_address_space_size; ++i)
+        {
+            if (!states[state_idx].test(i))
+                continue;
+            const situation_info info = make_situation_info(i);
+            const rule_info& ri = gi.rule_infos[info.rule_info_idx];
+            if (info.after >= ri.r_elements && info.t == term_idx)
+                return ri.r_idx;
+        }
+        return uninitialized16;
+    }
+
     template<typename Stream>
     constexpr void write_state_diag_str(Stream& s, size16_t idx) const
     {
@@ -2798,7 +2812,7 @@ private:
             else if (entry.kind == parse_table_entry_kind::reduce && entry.has_sr_conflict)
                 s << " S/R CONFLICT, prefer reduce(" << gi.rule_infos[entry.arg].r_idx << ") over shift\n";
             else if (is_shift(entry.kind) && entry.has_sr_conflict)
-                s << " S/R CONFLICT, prefer shift over reduce(" << gi.rule_infos[entry.arg].r_idx << ")\n";
+                s << " S/R CONFLICT, prefer shift over reduce(" << get_reduction_rule_idx(idx, size16_t(term_idx)) << ")\n";
             else if (is_shift(entry.kind))
                 s << " shift to " << entry.arg << "\n";
             else if (entry.kind == parse_table_entry_kind::reduce)
